@@ -19,7 +19,19 @@ import (
 
 func init() { props["C01"] = runC01 }
 
-type gOpt struct{ id, salt, n int }
+// gOpt: option number, value = z zero bytes followed by genBody(salt, n-z); n is the total length.
+type gOpt struct{ id, salt, n, z int }
+
+func (o gOpt) bytes() []byte {
+	z := o.z
+	if z > o.n {
+		z = o.n
+	}
+	if z < 0 {
+		z = 0
+	}
+	return append(make([]byte, z), genBody(o.salt, o.n-z)...)
+}
 
 type gMsg struct {
 	coder    int
@@ -36,7 +48,11 @@ type gMsg struct {
 func (g gMsg) desc() string {
 	var os []string
 	for _, o := range g.opts {
-		os = append(os, fmt.Sprintf("%d:%d:%d", o.id, o.salt, o.n))
+		if o.z > 0 {
+			os = append(os, fmt.Sprintf("%d:%d:%d:%d", o.id, o.salt, o.n, o.z))
+		} else {
+			os = append(os, fmt.Sprintf("%d:%d:%d", o.id, o.salt, o.n))
+		}
 	}
 	return fmt.Sprintf("msg c=%d tok=%x code=%d typ=%d mid=%d opts=%s pay=%d:%d cap=%d", g.coder, g.tok, g.code, g.typ, g.mid, strings.Join(os, ","), g.paySalt, g.payN, g.capExtra)
 }
@@ -73,7 +89,16 @@ func parseGMsg(desc string) (gMsg, bool) {
 				for _, o := range strings.Split(v, ",") {
 					q := strings.Split(o, ":")
 					if len(q) == 3 {
-						g.opts = append(g.opts, gOpt{atoi(q[0]), atoi(q[1]), atoi(q[2])})
+						g.opts = append(g.opts, gOpt{atoi(q[0]), atoi(q[1]), atoi(q[2]), 0})
+					} else if len(q) == 4 {
+						z := atoi(q[3])
+						if z < 0 {
+							z = 0
+						}
+						if z > atoi(q[2]) {
+							z = atoi(q[2])
+						}
+						g.opts = append(g.opts, gOpt{atoi(q[0]), atoi(q[1]), atoi(q[2]), z})
 					}
 				}
 			}
@@ -96,7 +121,7 @@ func (g gMsg) build() message.Message {
 	}
 	m.Options = make(message.Options, 0, len(g.opts))
 	for _, o := range g.opts {
-		m.Options = append(m.Options, message.Option{ID: message.OptionID(o.id), Value: genBody(o.salt, o.n)})
+		m.Options = append(m.Options, message.Option{ID: message.OptionID(o.id), Value: o.bytes()})
 	}
 	if g.payN > 0 {
 		m.Payload = genBody(g.paySalt, g.payN)
@@ -107,7 +132,11 @@ func (g gMsg) build() message.Message {
 func (g gMsg) coq() string {
 	var os []string
 	for _, o := range g.opts {
-		os = append(os, fmt.Sprintf("(%d, gb %d %d)", o.id, o.salt, o.n))
+		if o.z > 0 {
+			os = append(os, fmt.Sprintf("(%d, zgb %d %d %d)", o.id, o.z, o.salt, o.n))
+		} else {
+			os = append(os, fmt.Sprintf("(%d, gb %d %d)", o.id, o.salt, o.n))
+		}
 	}
 	return fmt.Sprintf("(mk %s %s [%s] (gb %d %d) %s %s)", coqBytes(g.tok), coqZ(int64(g.code)), strings.Join(os, "; "), g.paySalt, g.payN, coqZ(int64(g.mid)), coqZ(int64(g.typ)))
 }
@@ -154,12 +183,13 @@ var c01Deltas = []int{0, 0, 1, 1, 2, 3, 5, 12, 13, 14, 15, 20, 100, 255, 256, 26
 type regEntry struct {
 	id       int
 	min, max int
+	uint     bool // value format ValueUint
 }
 
 func regList(defs map[message.OptionID]message.OptionDef) []regEntry {
 	var r []regEntry
 	for k, d := range defs {
-		r = append(r, regEntry{int(k), int(d.MinLen), int(d.MaxLen)})
+		r = append(r, regEntry{int(k), int(d.MinLen), int(d.MaxLen), d.ValueFormat == message.ValueUint})
 	}
 	sort.Slice(r, func(i, j int) bool { return r[i].id < r[j].id })
 	return r
@@ -182,6 +212,9 @@ func signalDefs(code int) map[message.OptionID]message.OptionDef {
 // genMessage draws one message; mostly inside the preconditions.
 func genMessage(rng *Rng, coder int, allowBig bool) gMsg {
 	g := gMsg{coder: coder}
+	// the leading-zero choices come from a side stream (seeded from the state, not advancing it),
+	// so the messages drawn from rng are the same as before that dimension existed
+	zr := NewRng(rng.s ^ 0x5a5a5a5a)
 	// token
 	tl := rng.Intn(9)
 	switch {
@@ -258,6 +291,14 @@ func genMessage(rng *Rng, coder int, allowBig bool) gMsg {
 						o.n = e.min - 1
 					}
 				}
+				// leading zero bytes (a non-minimal uint value is still a legal value): often for
+				// uint-format options, now and then for the others
+				if o.n > 0 && (e.uint && zr.Chance(40) || zr.Chance(5)) {
+					o.z = 1 + zr.Intn(o.n)
+					if zr.Chance(50) {
+						o.z = 1
+					}
+				}
 				g.opts = append(g.opts, o)
 				cur = o.id
 				continue
@@ -282,6 +323,9 @@ func genMessage(rng *Rng, coder int, allowBig bool) gMsg {
 			if e.id == o.id && (o.n < e.min || o.n > e.max) && !rng.Chance(10) {
 				o.n = e.min + rng.Intn(e.max-e.min+1)
 			}
+		}
+		if o.n > 0 && o.n <= 300 && zr.Chance(4) {
+			o.z = 1 + zr.Intn(min(o.n, 3))
 		}
 		g.opts = append(g.opts, o)
 		cur = o.id
@@ -464,10 +508,11 @@ func bucketN(n int) string {
 func runC01(a runArgs) error {
 	e := NewEmitter("C01", "Codec.RunC01")
 	e.ShardSize = 120
-	e.Rule = "one case = one generated message through Size, Encode into buffers of length 0/1/size-1/size/size+7 (sentinel behind len), Decode and (stream) DecodeHeader of the produced bytes, pooled MarshalWithEncoder + UnmarshalWithDecoder. Mostly inside the preconditions; option deltas/lengths and body lengths aimed at 12/13/14, 268/269/270, 65804/65805; a separate share outside (token 9+, type/MID out of range, illegal or unsorted options, code > 255). Distinct = distinct message; non-trivial = at least one extended delta or length, or a non-empty payload."
+	e.Rule = "one case = one generated message through Size, Encode into buffers of length 0/1/size-1/size/size+7 (sentinel behind len), Decode and (stream) DecodeHeader of the produced bytes, pooled MarshalWithEncoder + UnmarshalWithDecoder. Mostly inside the preconditions; option deltas/lengths and body lengths aimed at 12/13/14, 268/269/270, 65804/65805; a separate share outside (token 9+, type/MID out of range, illegal or unsorted options, code > 255). Distinct = distinct message; non-trivial = at least one extended delta or length, or a non-empty payload. Option values may start with zero bytes (uint-format registry options often do; every uint entry of every table with every legal length is covered by hand-picked cases). Second family (strm): the stream coder's frames for 1-8 messages back to back, optionally followed by the first 1-96 bytes of one more frame; Decode, DecodeHeader and pooled UnmarshalWithDecoder at each frame position on all remaining bytes, advancing by the count Decode returns; non-trivial = the buffer holds bytes after its first frame."
 	if a.only != "" {
-		g, ok := parseGMsg(a.only)
-		if ok {
+		if st, ok := parseGStrm(a.only); ok {
+			c01Strm(e, st)
+		} else if g, ok := parseGMsg(a.only); ok {
 			c01Run(e, g)
 		}
 		return e.Flush(a.out)
@@ -496,7 +541,7 @@ func runC01(a runArgs) error {
 		}
 		for _, d := range []int{1, 12, 13, 14, 268, 269, 270, 65535} {
 			for _, l := range []int{0, 12, 13, 14, 268, 269, 270} {
-				c01Run(e, gMsg{coder: coder, code: 3, mid: 1, opts: []gOpt{{d, 5, l}}, capExtra: 1})
+				c01Run(e, gMsg{coder: coder, code: 3, mid: 1, opts: []gOpt{{d, 5, l, 0}}, capExtra: 1})
 			}
 		}
 		for _, body := range []int{1, 12, 13, 14, 268, 269, 270} {
@@ -517,11 +562,19 @@ func runC01(a runArgs) error {
 			c01Run(e, g)
 		}
 		// the longest expressible option value and the 4-byte stream length class
-		c01Run(e, gMsg{coder: coder, code: 2, mid: 5, opts: []gOpt{{65000, 3, 65804}}, capExtra: 1})
-		c01Run(e, gMsg{coder: coder, code: 2, mid: 5, opts: []gOpt{{65000, 3, 65805}}, capExtra: 1})
+		c01Run(e, gMsg{coder: coder, code: 2, mid: 5, opts: []gOpt{{65000, 3, 65804, 0}}, capExtra: 1})
+		c01Run(e, gMsg{coder: coder, code: 2, mid: 5, opts: []gOpt{{65000, 3, 65805, 0}}, capExtra: 1})
 		c01Run(e, gMsg{coder: coder, code: 69, mid: 6, payN: 65804, paySalt: 2})
 		c01Run(e, gMsg{coder: coder, code: 69, mid: 6, payN: 65803, paySalt: 2})
 		c01Run(e, gMsg{coder: coder, code: 69, mid: 6, payN: 65805, paySalt: 2})
 	}
+	// uint-format options in non-minimal form; stream buffers holding more than one frame (c01strm.go)
+	c01ZeroCorners(e)
+	c01StreamCorners(e)
+	nstrm := 150
+	if a.tier == "thorough" {
+		nstrm = 1200
+	}
+	c01StreamRandom(e, rng.Fork(), nstrm)
 	return e.Flush(a.out)
 }
